@@ -12,6 +12,9 @@
 (*   ReadNothingMayNotTouch -- a read that finds nothing in a live session *)
 (*                             may or may not count as a use (`lus` is the *)
 (*                             set of possible last-use times);            *)
+(* (A probe that does not recognise the store's private structure says     *)
+(* known = FALSE / membersKnown = FALSE / createdKnown = FALSE: the rules   *)
+(* that look at the projected state are then skipped, results still judged.)*)
 (*   BoundaryEither         -- within one second of a limit a session may  *)
 (*                             be present or gone.                         *)
 (* After the first mismatch of a scenario the rest of it is skipped (the   *)
@@ -65,20 +68,20 @@ Judge ==
         LET B == IF anew THEN (IF E.op = "SetTok" THEN fresh(0, E.v) ELSE fresh(E.v, 0))
                  ELSE (IF E.op = "SetTok" THEN [A EXCEPT !.tok = E.v, !.lus = {t}] ELSE [A EXCEPT !.auth = E.v, !.lus = {t}])
         IN IF E.err THEN <<{V("C12", "write-reports-error")}, A>>
-           ELSE IF ~P.ex THEN <<{V("C12", "write-not-visible")}, B>>
+           ELSE IF P.known /\ ~P.ex THEN <<{V("C12", "write-not-visible")}, B>>
            ELSE IF P.createdKnown /\ P.created # B.created THEN <<{V("C12", "creation-time-moved"), V("C10", "creation-time-moved")}, B>>
-           ELSE IF P.tok # (B.tok # 0) \/ P.auth # (B.auth # 0) THEN <<{V("C12", "write-disturbs-other-member")}, B>>
+           ELSE IF P.known /\ P.membersKnown /\ (P.tok # (B.tok # 0) \/ P.auth # (B.auth # 0)) THEN <<{V("C12", "write-disturbs-other-member")}, B>>
            ELSE <<{}, B>>
     [] E.op = "ClearAuth" ->
-        IF gone THEN <<(IF P.ex /\ ~Expired(A, t) THEN {V("C12", "clear-creates-session")} ELSE {}), None>>     \* ClearAbsentFails: either result
+        IF gone THEN <<(IF P.known /\ P.ex /\ ~Expired(A, t) THEN {V("C12", "clear-creates-session")} ELSE {}), None>>     \* ClearAbsentFails: either result
         ELSE IF E.err /\ kept THEN <<{V("C12", "clear-reports-error-on-live-session")}, A>>
         ELSE IF E.err THEN <<{}, None>>
-        ELSE IF P.ex /\ (P.auth \/ P.tok # (A.tok # 0)) THEN <<{V("C12", "clear-does-not-clear-or-damages-tokens")}, A>>
-        ELSE IF ~P.ex /\ kept THEN <<{V("C12", "clear-removes-session")}, A>>
-        ELSE <<{}, IF P.ex THEN [A EXCEPT !.auth = 0, !.lus = {t}] ELSE None>>
+        ELSE IF P.known /\ P.membersKnown /\ P.ex /\ (P.auth \/ P.tok # (A.tok # 0)) THEN <<{V("C12", "clear-does-not-clear-or-damages-tokens")}, A>>
+        ELSE IF P.known /\ ~P.ex /\ kept THEN <<{V("C12", "clear-removes-session")}, A>>
+        ELSE <<{}, IF P.ex \/ ~P.known THEN [A EXCEPT !.auth = 0, !.lus = {t}] ELSE None>>
     [] E.op = "Remove" ->
         IF E.err THEN <<{V("C12", "remove-reports-error")}, A>>
-        ELSE IF P.ex THEN <<{V("C12", "remove-leaves-data")}, None>>
+        ELSE IF P.known /\ P.ex THEN <<{V("C12", "remove-leaves-data")}, None>>
         ELSE <<{}, None>>
     [] OTHER -> <<{}, A>>
 
